@@ -305,6 +305,10 @@ func runC07(c *Ctx, r *Report) {
 	r.Rule("C07.R9", "fixed-capacity containers: the length fields of SmallArray, SmallMap and the register file (and Register.Idx) stay within the capacity of the array they index (every store through a pointer is proven within the limit; a local copy may exceed it transiently but not where the value leaves the function), and every index and slice bound into a fixed-size array of packages object and eval is proven within the array from those invariants, dominating comparisons, loop-edge facts, callers' arguments and callees' results; 6 relational sites are named abstentions")
 	c.checkBoundedContainers(r, "C07.R9", map[string]bool{"eval": true, "object": true})
 
+	// ---- R10 ----
+	r.Rule("C07.R10", "index inventory: every index and slice bound applied to a slice or string in packages eval, object and extensions is proven within the length of the very operand it is applied to (dominating comparisons with len of the same value, range loops over it, make() with that length, constants below a proven minimum length, callers' arguments), belongs to the callback-argument rule C07.R2, or is one of the 40 named sites whose argument was read off the code (binary-search results, sort.Interface callbacks, Len()/Elements() agreement, registry minimums); anything else is reported")
+	c.checkSliceBounds(r, "C07.R10", map[string]bool{"eval": true, "object": true, "extensions": true})
+
 	// shared: the register typestate rules the panic table relies on for MakeRegister / ReleaseRegister
 	r.Rule("C05.R1", "(shared) every acquired register is released on every exit (defer right after the acquire: LIFO order)")
 	r.Rule("C05.R2", "(shared) MakeRegister only under HasRegisters()")
